@@ -347,3 +347,7 @@ pub fn cal_week_mask(c: &Cal) -> Vec<u8> {
 pub fn union_cal_parts(c: &UnionCal) -> (Vec<Cal>, Option<Vec<Cal>>) {
     (c.calendars.clone(), c.settlement_calendars.clone())
 }
+
+// free functions of the Python-facing layer (their modules are crate-private)
+pub use crate::calendars::calendar_py::verif_py_get_calendar_by_name;
+pub use crate::splines::spline_py::{verif_py_bspldnev_single, verif_py_bsplev_single};
